@@ -188,16 +188,16 @@ class C16(Check):
                     "pool": rng.randint(bs, bs + 25), "pred_seed": rng.randrange(10 ** 6),
                     "pred_mode": rng.choice(["ties", "ties", "huge", "neg", "normal", "inf"]), "passes": rng.choice([0, 0, 2, 5]),
                     "ctor_seed": rng.randrange(2 ** 31), "hist_seed": rng.randrange(2 ** 31), "hist_n": rng.randint(1, 12),
-                    "loss_mode": rng.choice(["ties", "huge", "inf", "plain"]), "calls": rng.randint(1, 4)}
+                    "loss_mode": rng.choice(["ties", "huge", "inf", "plain", "const"]), "calls": rng.randint(1, 4)}
         if u < 0.7:
             scn = gen_compsim(rng, kinds=["bestbatch"])
-            scn["loss_mode"] = rng.choice(["ties", "ties", "plain", "huge", "inf"])
+            scn["loss_mode"] = rng.choice(["ties", "ties", "plain", "huge", "inf", "const"])
             if rng.random() < 0.35:
                 scn["offspace"] = rng.randrange(1, 2 ** 31)      # some of the best history points lie outside the space / off the grid
             return scn
         scn = gen_compsim(rng)
         kind = scn["sampler"]["cls"]
-        scn["loss_mode"] = rng.choice(["ties", "huge", "inf"] if kind not in ("cors", "gp") else ["ties", "huge" if kind == "gp" else "ties"])
+        scn["loss_mode"] = rng.choice(["ties", "huge", "inf", "const"] if kind not in ("cors", "gp") else ["ties", "huge" if kind == "gp" else "ties", "const"])
         return scn
 
     def run(self, scn):
